@@ -1,5 +1,6 @@
 import GeffProofs.TrackMate8
 import GeffProps.C14
+import Gen.TrackMateTables
 /-! # C16 — TrackMate conversion preserves spots, links, features and tracks
 
 Property theorems only.  Model: `Geff.TrackMate.convert` (`GeffModel/TrackMate.lean`) — the converter
@@ -175,7 +176,11 @@ theorem aget_spotAttrs (md : List Feat) (s : Spot) (k : String) (hk : k ≠ "ROI
   simp only
   cases s.roi with
   | none => rfl
-  | some r => exact aget_aset_ne _ _ _ _ hk
+  | some r =>
+    simp only
+    cases r.pts with
+    | none => rfl
+    | some p => exact aget_aset_ne _ _ _ _ hk
 
 /-- **C16 (spot features)**: for a kept spot and a declared feature `k` (any category — the
 converter types attributes by the merged declarations), the value stored under the name `k` is the
@@ -378,6 +383,49 @@ theorem C16_edge_features (d : Doc) (h : WF d) (ds dt : Bool) (out : Out) (hc : 
   · intro hnot
     rw [hcell, aget_none a k (by rw [hak]; exact hnot)]
 
+/-- **C16 (lineage declaration)**: `track_node_props = {"lineage": "TRACK_ID"}` is declared exactly
+when some node of the output carries a TRACK_ID (the repaired behaviour: the metadata never names a
+property that is not written). -/
+theorem C16_lineage_declared (d : Doc) (h : WF d) (ds dt : Bool) (out : Out) (hc : convert d ds dt = .ok out) :
+    out.lineageDeclared = true ↔ ∃ s ∈ d.spots, keepSpot d ds dt (spotId s) = true ∧ lone d (spotId s) = false := by
+  obtain ⟨_, _, _, _, _, _, hl⟩ := convert_out d h ds dt out hc
+  rw [hl]
+  simp only [List.any_eq_true, List.mem_map]
+  have hkey : ∀ s ∈ d.spots, (ahas (spotAttrs (attrsMd d) s ++ stampOf (links d) (spotId s)) "TRACK_ID" = true ↔
+      lone d (spotId s) = false) := by
+    intro s hs
+    rw [ahas_iff]
+    have hno := h.noTrackIdAttr s hs
+    simp only [List.map_append, List.mem_append, hno, false_or]
+    unfold stampOf lone
+    cases hf : (links d).find? (fun x => touches x.1 (spotId s)) with
+    | none =>
+      simp only [List.map_nil, List.not_mem_nil, false_iff, Bool.not_eq_false]
+      rw [List.all_eq_true]
+      intro x hx
+      have := List.find?_eq_none.1 hf x hx
+      simpa using this
+    | some x =>
+      simp only [List.map_cons, List.map_nil, List.mem_cons, List.not_mem_nil, or_false, true_iff]
+      have hx := List.mem_of_find?_eq_some hf
+      have ht : touches x.1 (spotId s) = true := by simpa using List.find?_some hf
+      cases hall : (tagged (attrsMd d) d.tracks).all (fun x => !touches x.1 (spotId s))
+      · rfl
+      · rw [List.all_eq_true] at hall
+        have := hall x hx
+        rw [ht] at this; cases this
+  constructor
+  · rintro ⟨a, ⟨p, hp, rfl⟩, ha⟩
+    simp only [finalGraph, restrictTo, List.mem_filter, fullGraph, stamped, baseNodes, List.map_map, List.mem_map,
+      Function.comp] at hp
+    obtain ⟨⟨s, hs, rfl⟩, hk⟩ := hp
+    exact ⟨s, hs, hk, (hkey s hs).1 ha⟩
+  · rintro ⟨s, hs, hk, hl⟩
+    refine ⟨_, ⟨(spotId s, spotAttrs (attrsMd d) s ++ stampOf (links d) (spotId s)), ?_, rfl⟩, (hkey s hs).2 hl⟩
+    simp only [finalGraph, restrictTo, List.mem_filter, fullGraph, stamped, baseNodes, List.map_map, List.mem_map,
+      Function.comp]
+    exact ⟨⟨s, hs, rfl⟩, hk⟩
+
 /-! ## Lineage validity of the output -/
 
 /-- the nodes of the output that carry a TRACK_ID, each with it (the nodes whose TRACK_ID is flagged
@@ -518,6 +566,43 @@ theorem C16_lineage_validates (d : Doc) (h : WF d) (hconn : TracksConnected d) (
     Geff.Lineage.validateLineages (labelled d ds dt) out.edges = true :=
   (GeffProps.C14.C14_iff _ _ (labelled_unique d ds dt)).2 (C16_lineage_valid d h hconn ds dt out hc)
 
+
+/-! ## Literal tables of the converter, read off the source (translator T8b → `Gen.TrackMateTables`) -/
+open Gen.TrackMateTables in
+def renderUnit (space time : String) : List Piece → String
+  | [] => ""
+  | .lit s :: rest => s ++ renderUnit space time rest
+  | .space :: rest => space ++ renderUnit space time rest
+  | .time :: rest => time ++ renderUnit space time rest
+
+/-- the model's `unitOf` is the `_DIMENSION_UNIT_TEMPLATES` dict of the working tree: every listed
+dimension renders as its lambda does, every other dimension is unknown (`ValueError`) -/
+theorem C16_unit_templates_source :
+    Gen.TrackMateTables.translationOk = true ∧
+    (∀ kv ∈ Gen.TrackMateTables.unitTemplates, ∀ space time : String,
+      unitOf kv.1 space time = some (renderUnit space time kv.2)) ∧
+    (∀ dim space time : String, dim ∉ Gen.TrackMateTables.unitTemplates.map (·.1) → unitOf dim space time = none) := by
+  refine ⟨rfl, ?_, ?_⟩
+  · intro kv hkv space time
+    simp only [Gen.TrackMateTables.unitTemplates, List.mem_cons, List.not_mem_nil, or_false] at hkv
+    rcases hkv with rfl | rfl | rfl | rfl | rfl | rfl | rfl | rfl | rfl | rfl | rfl | rfl | rfl | rfl <;>
+      simp [unitOf, renderUnit, String.append_assoc]
+  · intro dim space time h
+    simp only [Gen.TrackMateTables.unitTemplates, List.map_cons, List.map_nil, List.mem_cons, List.not_mem_nil,
+      or_false, not_or] at h
+    unfold unitOf
+    split <;> simp_all
+
+/-- the four axes, their unit keys and defaults, and the (conditional) lineage declaration are the
+ones the model uses (`C16_units`: `pixel` / `frame` defaults; `lineageDeclared` only when a node
+carries a TRACK_ID) -/
+theorem C16_axes_source :
+    Gen.TrackMateTables.axes =
+      [("POSITION_X", "space", "spatialunits", "pixel"), ("POSITION_Y", "space", "spatialunits", "pixel"),
+       ("POSITION_Z", "space", "spatialunits", "pixel"), ("POSITION_T", "time", "timeunits", "frame")] ∧
+    Gen.TrackMateTables.unitDefaults = [("spatialunits", "pixel"), ("timeunits", "frame")] ∧
+    Gen.TrackMateTables.lineageKey = "lineage" ∧ Gen.TrackMateTables.lineageProp = "TRACK_ID" ∧
+    Gen.TrackMateTables.lineageConditional = true := by decide
 
 /-! ## The executable checks used by the harness imply the hypotheses above -/
 
